@@ -503,6 +503,11 @@ def gen_case(seed, force_faults=None, clean=None):
         requested.append(req_name(r_q.pick(forms[1:])))
     if r_q.chance(0.15):
         requested = [req_name(r_q.pick(forms))]
+    for rn in list(requested):
+        if ':' in rn and r_q.chance(0.3):
+            other = rn.split(':')[0] + ':' + r_q.pick([i for i in INSTANCES if i != rn.split(':')[1]])
+            if other not in requested:
+                requested.append(other)
     field_names = []
     for rn in requested:
         fs = next(f for f in forms if f['name'] == rn.split(':')[0])
